@@ -74,6 +74,13 @@ func c03PickMode(r *rand.Rand, special string, framing string, bodyLen int) stri
 // prelude exchange is complete, body-less and keep-alive: it costs no connection.
 var c03Positions = []string{"", "", "", "digest", "digest", "retried", "retried", "redirect"}
 
+// c03PosRand: the round-6 dimensions (exchange position, RST on close-delimited bodies, kind of
+// the follow-up request) draw from a stream of their own, so that the case sequences of the older
+// dimensions stay what they were for every (VERIF_SEED, tier).
+func c03PosRand(lane int64) *rand.Rand {
+	return rand.New(rand.NewSource(verifh.Seed()*1000003 + 7919*lane + 6))
+}
+
 // c03PickPos: the position for a case. `any` = some byte of the scripted response is delivered
 // (with none, the transport itself may replay the request on a fresh connection — a reused
 // connection that dies before the first response byte — which is not this lane's subject).
